@@ -424,8 +424,9 @@ def _run_fuzz(mod, plan, seed, workers_per_sub=4):
     import subprocess
     import tempfile
     from concurrent.futures import ThreadPoolExecutor
-    deps = os.path.join(VERIF_DIR, ".deps")
-    if not os.path.isdir(os.path.join(deps, "atheris")):
+    deps = next((d for d in (os.path.join(VERIF_DIR, ".deps"), os.environ.get("VERIF_DEPS", "/verif/.deps"))
+                 if os.path.isdir(os.path.join(d, "atheris"))), None)
+    if deps is None:
         return {}, "atheris not installed (run setup_cmd): coverage-guided campaigns skipped", []
     tmp = tempfile.mkdtemp(prefix="verif-fuzz-")
     jobs = []
@@ -435,7 +436,7 @@ def _run_fuzz(mod, plan, seed, workers_per_sub=4):
 
     def run(job):
         subname, k, runs, out = job
-        env = dict(os.environ, PYTHONHASHSEED="0", VERIF_REPO=REPO_DIR)
+        env = dict(os.environ, PYTHONHASHSEED="0", VERIF_REPO=REPO_DIR, VERIF_DEPS=deps)
         cmd = [sys.executable, "-m", "vlib.fuzzworker", mod.__name__, subname,
                str(derive_seed(seed, mod.PROPERTY, subname, "fuzz", k) % (2**31 - 1)), str(runs), out]
         p = subprocess.run(cmd, cwd=VERIF_DIR, env=env, stdout=subprocess.DEVNULL, stderr=subprocess.DEVNULL)
